@@ -101,10 +101,11 @@ def q(x):
 
 def gen_ohlcv(rng, n, regime=None):
     regime = regime or rng.choice(REGIMES)
-    if regime in ('penny', 'huge'):
-        # a walk at a very low (fractions of a cent) or very high (beyond 2^31) price level: exact power-of-two rescaling
+    if regime in ('penny', 'huge', 'micro'):
+        # a walk at a very low (fractions of a cent; 'micro': around 1e-8, neighbouring quotes less than 1e-9 apart) or very high
+        # (beyond 2^31) price level: exact power-of-two rescaling
         s, _ = gen_ohlcv(rng, n, rng.choice(['walk', 'wide', 'dips']))
-        k = 2.0 ** (-15 if regime == 'penny' else 24)
+        k = 2.0 ** (-15 if regime == 'penny' else (-33 if regime == 'micro' else 24))
         for f in 'ohlc':
             s[f] = [x * k for x in s[f]]
         return s, regime
@@ -256,5 +257,5 @@ def make_inputs(rng, name, n, regime=None):
         for k in kinds:
             streams.append([float(i + 1) for i in range(n)] if k == 'x' else vals)
         return streams, reg, None
-    s, reg = gen_ohlcv(rng, n, regime if regime in REGIMES + ['anyorder', 'zeroquote'] else None)
+    s, reg = gen_ohlcv(rng, n, regime if regime in REGIMES + ['anyorder', 'zeroquote', 'micro'] else None)
     return [s[k] for k in kinds], reg, s
